@@ -80,6 +80,14 @@ def run(ctx):
             return
         if res["status"] != "ok":
             return
+        # finding D27 (hybrid depthwise kernel reading per-channel scales the model does not carry) makes the interpreter's results depend
+        # on uninitialised memory: two interpreter instances disagree with each other, nothing can be said about validate()'s numbers
+        from .. import fam_numeric as fnum
+        from .. import pipeline as pl
+        mo = pl.read(res["out"])
+        if any("hybrid-tensorwise" in fnum.op_variant(mo, sg, op) for sg in mo.subgraphs for op in sg.operators):
+            ctx.tag("skipped_nondeterministic_runtime_D27")
+            return
         metric = "mse" if rng.random() < 0.5 else "median_diff_ratio"
         data = gm.random_inputs(case.mb, rng, n=rng.randint(1, 3))
         fail = fp.failer(ctx, case, prefix=f"[{metric}] ")
